@@ -70,7 +70,7 @@ WmtsTile == [service |-> <<"valid", "absent">> \o T3, version |-> <<"valid", "ab
 Coord == <<"valid", "negative", "outside", "huge">>
 RestTile == [layer |-> <<"valid", "direct", "word", "hostile", "ctrl">>, tilematrixset |-> <<"valid", "othergrid", "word", "hostile", "ctrl">>,
              z |-> <<"valid", "toodeep", "huge">>, x |-> Coord, y |-> Coord]
-TmsTile == [layer |-> <<"valid", "direct", "geo", "hostile", "ctrl">>, spec |-> <<"valid", "othergrid", "absent", "hostile", "ctrl">>,
+TmsTile == [layer |-> <<"valid", "direct", "hostile", "ctrl">>, spec |-> <<"valid", "othergrid", "absent", "hostile", "ctrl">>,
             z |-> <<"valid", "toodeep", "negative", "huge">>, x |-> Coord, y |-> Coord,
             format |-> <<"png", "jpeg", "word", "hostile", "ctrl">>, origin |-> <<"absent", "nw", "sw", "hostile">>]
 DemoLayer == [layer |-> <<"valid", "hostile", "empty">>, srs |-> <<"valid", "absent">> \o T3, format |-> <<"valid", "absent">> \o T3]
@@ -188,6 +188,8 @@ WmsValidate(op, p, v) ==
        THEN IF G(p, "sld_version") \in Text \cup {"other"} THEN {Err(WmsH(p, v, fmt0), "none", Ech(p, "sld_version"), 0)} ELSE {None}
      ELSE IF p.bbox \in {"malformed", "short", "empty"} THEN {Raise}
      ELSE IF p.bbox = "inverted" THEN {Err(WmsH(p, v, fmt0), "none", {}, 0)}
+     ELSE IF p.bbox = "nonfinite" /\ p.styles \notin Text THEN {Err(WmsH(p, v, fmt0), "none", {}, 0), None}   \* -inf as a maximum
+     ELSE IF p.bbox = "nonfinite" THEN {Err(WmsH(p, v, fmt0), "none", {}, 0), Err(WmsH(p, v, fmt0), "StyleNotDefined", Ech(p, "styles"), 0)}
      ELSE IF p.styles \in Text THEN {Err(WmsH(p, v, fmt0), "StyleNotDefined", Ech(p, "styles"), 0)}
      ELSE IF v = "130" /\ p.srs \in Text THEN {None, Raise}       \* switch_bbox asks proj about the CRS text
      ELSE {None}
@@ -249,7 +251,9 @@ WmsCaps(p, v) ==
 WmsParse(op, p) ==
   IF p.version = "malformed" THEN {Raise}
   ELSE LET v == V(p.version) IN
-    IF op = "wms_other" THEN {Err(WmsH(p, v, FmtOf(p)), "none", Ech(p, "request"), 0)}
+    IF op = "wms_other" THEN
+         IF v = "130" /\ p.bbox \in {"malformed", "empty"} THEN {Raise}          \* adapt_to_111 -> switch_bbox parses BBOX
+         ELSE {Err(WmsH(p, v, FmtOf(p)), "none", Ech(p, "request"), 0)} \cup If(v = "130" /\ p.srs \in Text, {Raise})
     ELSE IF op = "wms_legend" /\ v \in {"100", "110"} THEN {Err(WmsH(p, v, FmtOf(p)), "none", {}, 0)}
     ELSE IF op = "wms_caps" THEN {None}
     ELSE WmsValidate(op, p, v)
@@ -287,11 +291,13 @@ WmtsLayerChecks(p, lk, mk) ==       \* check_request(): layer and tile matrix se
   ELSE {}
 
 WmtsHandle(op, p) ==
+  \* make_request() reads FORMAT first: split_mime_type() fails on text with several ';'
+  If(op # "wmts_caps" /\ p.format \in Text, {Raise}) \cup
   CASE op = "wmts_caps" -> {Ok(200, "application/xml", "xml", "wmtscaps", "none", UrlSlots(p, "attr"))}
     [] op = "wmts_tile" ->
         IF "malformed" \in {p.tilematrix, p.tilerow, p.tilecol} THEN {Raise}
         ELSE IF WmtsLayerChecks(p, "layer", "tilematrixset") # {} THEN WmtsLayerChecks(p, "layer", "tilematrixset")
-        ELSE IF p.format \in Text THEN {Err(WmtsH, "InvalidParameterValue", Ech(p, "format"), 0), Raise}
+        ELSE IF p.format \in Text THEN {Err(WmtsH, "InvalidParameterValue", Ech(p, "format"), 0)}
         ELSE IF p.format = "jpeg" THEN {Err(WmtsH, "InvalidParameterValue", {}, 0)}
         ELSE IF p.tilematrix = "toodeep" \/ p.tilerow \in {"negative", "outside"} \/ p.tilecol \in {"negative", "outside"}
           THEN {Err(WmtsH, "TileOutOfRange", {}, 0)}
@@ -303,7 +309,6 @@ WmtsHandle(op, p) ==
         ELSE IF p.tilematrix = "toodeep" THEN {Raise}
         ELSE {Ok(200, IF p.infoformat = "xml" THEN "text/xml; charset=utf-8" ELSE "text/plain; charset=utf-8",
                  IF p.infoformat = "xml" THEN "xml" ELSE "text", IF p.infoformat = "xml" THEN "upstreaminfo" ELSE "none", "none", {})}
-             \cup (IF p.format \in Text THEN {Raise} ELSE {})
 
 \* make_wmts_rest_request_parser(): the URL templates are regular expressions over the path
 RestNoMatch(op, p) ==
@@ -334,7 +339,7 @@ RestHandle(op, p) ==
 \* TileServer / KMLServer: request classes are regular expressions over the path, then layer, format, tile checks
 TileH(svc) == IF svc = "tms" THEN TmsH ELSE PlainH
 TileLayerChecks(p, h) ==
-  IF p.layer \in Text \cup {"direct", "geo"} THEN {Err(h, "none", Ech(p, "layer"), 0)}
+  IF p.layer \in Text \cup {"direct"} THEN {Err(h, "none", Ech(p, "layer"), 0)}
   ELSE IF G(p, "spec") \in Text \cup {"othergrid"} THEN {Err(h, "none", {}, 0)}
   ELSE {}
 CoordBad(p) == p.z # "valid" \/ p.x # "valid" \/ p.y # "valid"
@@ -477,7 +482,8 @@ RenderError ==
          [] OTHER ->                                                       \* a WMS request: EXCEPTIONS selects the handler
               IF h.exc \in {"inimage", "blank"} /\ ~h.prevent
                 THEN \E o \in ImageError(h) : out' = o /\ pc' = Goto(o)
-                ELSE /\ out' = [Ok(500, WmsXmlCt(h.v), "xml", "wms" \o h.v \o "exc", "none", XmlSlots(e.echo)) EXCEPT !.code = e.code]
+                ELSE /\ out' = [Ok(500, WmsXmlCt(h.v), "xml", "wms" \o h.v \o "exc", "none", XmlSlots(e.echo))
+                                 EXCEPT !.code = IF h.v = "100" THEN "none" ELSE e.code]     \* the 1.0.0 template prints no code
                      /\ pc' = "send"
   /\ UNCHANGED <<req, resp>>
 
